@@ -47,6 +47,74 @@ func appendChain(st *pstate, s *Sym) (base *Sym, parts []Event) {
 	return s, parts
 }
 
+// concatOf: the segments a slice value was put together from on this path, when it is a slice built here:
+// append(append(nil-or-empty-make, a...), b...) or make([]T, len(a)+len(b)) filled by copy(s, a); copy(s[len(a):], b).
+// built is false when s is not a slice built on this path at all.
+func concatOf(sm *Summary, s *Sym) (segs []*Sym, built, fresh bool) {
+	base, ap := appendChain(sm.St, s)
+	if len(ap) > 0 {
+		for _, e := range ap {
+			segs = append(segs, e.Args[1])
+		}
+		fresh = base != nil && base.IsNil()
+		if base != nil && base.K == sFresh && len(base.Kids) == 1 {
+			if _, isMk := base.V.(*ssa.MakeSlice); isMk {
+				if l := base.Kids[0]; l.K == sConst && l.C != nil && constant.Sign(l.C) == 0 {
+					fresh = true
+				}
+			}
+		}
+		return segs, true, fresh
+	}
+	if s == nil || s.K != sFresh || len(s.Kids) != 1 {
+		return nil, false, false
+	}
+	if _, isMk := s.V.(*ssa.MakeSlice); !isMk {
+		return nil, false, false
+	}
+	var terms []*Sym
+	var walk func(x *Sym)
+	walk = func(x *Sym) {
+		if x != nil && x.K == sBin && x.Op == token.ADD {
+			walk(x.A)
+			walk(x.B)
+			return
+		}
+		terms = append(terms, x)
+	}
+	walk(s.Kids[0])
+	var off *Sym
+	for _, t := range terms {
+		if t == nil || t.K != sLen {
+			return nil, true, false
+		}
+		var src *Sym
+		for _, e := range sm.Events() {
+			if !isBuiltinCall(&e, "copy") || len(e.Args) != 2 {
+				continue
+			}
+			dst := e.Args[0]
+			switch {
+			case off == nil && dst.Key() == s.Key():
+			case off != nil && dst.K == sSlice && dst.A != nil && dst.A.Key() == s.Key() && dst.Str == off.Key()+":":
+			default:
+				continue
+			}
+			src = e.Args[1]
+		}
+		if src == nil || src.Key() != t.A.Key() {
+			return nil, true, false
+		}
+		segs = append(segs, src)
+		if off == nil {
+			off = t
+		} else {
+			off = &Sym{K: sBin, Op: token.ADD, A: off, B: t, T: t.T}
+		}
+	}
+	return segs, true, true
+}
+
 func checkQuantifier(r *Run, prog *Program, a *Anchors, pfx string) {
 	fn := a.CollEval
 	r.Analysed(fn.String())
@@ -566,6 +634,14 @@ func isDecimalOf(st *pstate, part *Sym, n int64) bool {
 
 // isKeyString: s = keys[n].String() for keys = v.MapKeys().
 func isKeyString(st *pstate, s, v *Sym, n int64) bool {
+	if s != nil && s.K == sTAValue && s.A != nil && types.Identical(s.T, types.Typ[types.String]) {
+		// key.Interface().(string): the key itself (maps are iterated only when the key type is string: map-key-guard)
+		if ic, ok := reflCall(s.A, "Interface"); ok {
+			ka := symArgs(st, ic)
+			return len(ka) == 1 && isSortedKeyOf(st, ka[0], v, n)
+		}
+		return false
+	}
 	fn, _ := calleeOfSym(s)
 	if !isReflectMethod(fn, "String") {
 		return false
@@ -823,15 +899,15 @@ func checkScan(r *Run, prog *Program, a *Anchors, pfx string) {
 			continue
 		}
 		parts := getPath(lf.gets[0].Deref[0], []string{"Parts"})
-		if parts == nil || parts.K != sCall {
+		if parts == nil {
 			continue
 		}
-		base, ap := appendChain(sm.St, parts)
-		if len(ap) == 0 {
+		segs, built, fresh := concatOf(sm, parts)
+		if !built {
 			continue
 		}
 		nsub++
-		if base != nil && base.IsNil() && len(ap) == 2 && isFieldOfValue(ap[0].Args[1], "path") && ap[1].Args[1].K == sSlice && strings.HasPrefix(ap[1].Args[1].Str, "const(1):") {
+		if fresh && len(segs) == 2 && isFieldOfValue(segs[0], "path") && segs[1].K == sSlice && strings.HasPrefix(segs[1].Str, "const(1):") {
 			okSub++
 		}
 	}
